@@ -29,7 +29,10 @@ ALPHABET = (["add_species", "add_reaction", "add_reaction", "create_parameter", 
 def gen_case(case_seed, cfg):
     r = seeds.rng(case_seed, "c12")
     n_ops = r.choice([2, 4, 6, 10, 16])
-    base, ops = history.gen_history(r, n_ops, ALPHABET)
+    # one case in seven carries a rule that assigns a rate parameter (repeated, per step, or at a scheduled time: the
+    # parameter's own value matters until the rule first fires)
+    pr = seeds.rng(case_seed, "param_rule").random() < 0.15
+    base, ops = history.gen_history(r, n_ops, ALPHABET, param_rule_stratum=pr, param_rule_freqs=("repeated", "dt", 1.0, 0.25, 2.5))
     if not any(o[0] == "restart_sbml" for o in ops):
         ops.insert(len(ops) - 1, ["restart_sbml", r.random() < 0.5])
     return {"base": base, "ops": ops, "stratum": "plain", "pseed": seeds.derive(case_seed, "p")}
